@@ -1,4 +1,5 @@
 import Ntrip.Proofs.TimeHist
+import Ntrip.Guards.Time
 /-!
 # C17 — any start time within the week of the first observation gives correct times
 
@@ -72,5 +73,8 @@ example : Pre 1683676800000 {} sample := by
 
 example : runTimes (newState 1683676800000) sample =
     [(.ok 1683504000000, some 1683417582000), (.ok 1683763200000, some 1683417582000)] := by decide
+
+/-- Tie T1: guards and loop headers of the modelled code, regenerated from the source. -/
+theorem tie_guards_time : type_of% Ntrip.Guards.time := Ntrip.Guards.time
 
 end Ntrip.C17
